@@ -251,11 +251,11 @@ func rulePrefixTables(c *Ctx) {
 	var sites []ssa.Instruction
 	instrs(lst, func(ins ssa.Instruction) {
 		cc := callCommon(ins)
-		if cc == nil || cc.StaticCallee() == nil || cc.StaticCallee().Name() != "ServeAsync" {
+		if cc == nil || cc.StaticCallee() == nil || baseFuncName(cc.StaticCallee()) != "ServeAsync" {
 			return
 		}
 		if mc, ok := cc.Args[1].(*ssa.Call); ok && mc.Call.StaticCallee() != nil {
-			order = append(order, mc.Call.StaticCallee().Name())
+			order = append(order, baseFuncName(mc.Call.StaticCallee()))
 			sites = append(sites, ins)
 		}
 	})
@@ -316,7 +316,7 @@ func ruleOneService(c *Ctx) {
 	}
 	isDone := func(ins ssa.Instruction) bool {
 		cc := callCommon(ins)
-		return cc != nil && cc.StaticCallee() != nil && cc.StaticCallee().Name() == "doneSniffing"
+		return cc != nil && cc.StaticCallee() != nil && baseFuncName(cc.StaticCallee()) == "doneSniffing"
 	}
 	isDeadline := func(ins ssa.Instruction) (bool, bool) { // (is, clears)
 		cc := callCommon(ins)
@@ -426,7 +426,7 @@ func ruleOneService(c *Ctx) {
 		okT := false
 		instrs(lst, func(ins ssa.Instruction) {
 			cc := callCommon(ins)
-			if cc == nil || cc.StaticCallee() == nil || cc.StaticCallee().Name() != "SetReadTimeout" {
+			if cc == nil || cc.StaticCallee() == nil || baseFuncName(cc.StaticCallee()) != "SetReadTimeout" {
 				return
 			}
 			walkDeps(cc.Args[1], func(x ssa.Value) bool {
